@@ -113,6 +113,11 @@ fn steps(labels: &[String]) -> String {
     if labels.is_empty() { return "-".into(); }
     labels.iter().map(|l| match l.as_str() {
         "rulecat.save.mkdir" => 'm', "schemacat.save.mkdir" => 'M',
+        "rulecat.save.tmpwrite" => 't', "schemacat.save.tmpwrite" => 'T',
+        "rulecat.save.fsync" => 'f', "schemacat.save.fsync" => 'F',
+        "rulecat.save.rename" => 'n', "schemacat.save.rename" => 'N',
+        "rulecat.save.dirsync" => 'd', "schemacat.save.dirsync" => 'D',
+        // the in-place write of the unrepaired code (kept so that a regression is reported, not hidden)
         "rulecat.save.write" => 'w', "schemacat.save.write" => 'W', _ => '?' }).collect()
 }
 
@@ -125,6 +130,7 @@ fn cut(file: &Path, frag: &str) -> bool {
     crashfs::truncate(file, to)
 }
 fn cat_file(root: &Path, rules: bool) -> PathBuf { if rules { root.join(KG).join("rules/catalog.json") } else { root.join(KG).join("schema.json") } }
+fn tmp_file(root: &Path, rules: bool) -> PathBuf { if rules { root.join(KG).join("rules/catalog.json.tmp") } else { root.join(KG).join("schema.json.tmp") } }
 
 pub fn exec(req: &str) -> String {
     let body = match req.strip_prefix("c16.run") { Some(b) => b.trim(), None => return "bad-request".into() };
@@ -166,7 +172,10 @@ pub fn exec(req: &str) -> String {
                 let new = render(&eng);
                 match cb.hit_label.as_deref() {
                     None => crashfs::snapshot(&live, &img),
-                    Some(l) => if !frag.is_empty() && l.ends_with(".write") { cut(&cat_file(&img, l.starts_with("rulecat.")), frag); }
+                    Some(l) => if !frag.is_empty() {
+                        if l.ends_with(".tmpwrite") { cut(&tmp_file(&img, l.starts_with("rulecat.")), frag); }
+                        else if l.ends_with(".write") { cut(&cat_file(&img, l.starts_with("rulecat.")), frag); }
+                    }
                 }
                 reboot = Some((old, new));
             }
@@ -234,8 +243,9 @@ pub fn gen(ctx: &mut Ctx) -> Vec<String> {
     for b in &bases {
         out.push(format!("c16.run | {}", b.join(" ; ")));
         for i in 0..b.len() {
-            for j in 1..=2 { for f in FRAGS {
-                if j == 1 && !f.is_empty() { continue; }
+            for j in 1..=10 { for f in FRAGS {
+                if j != 2 && j != 7 && !f.is_empty() { continue; }
+                if j > 5 && !b[i].starts_with("dr") { continue; }
                 let mut h: Vec<String> = b.iter().map(|s| s.to_string()).collect();
                 h[i] = format!("{} @{}{}", h[i], j, f);
                 out.push(format!("c16.run | {}", h.join(" ; ")));
@@ -263,7 +273,7 @@ pub fn gen(ctx: &mut Ctx) -> Vec<String> {
         for _ in 0..len {
             let mut op = rand_op(ctx, valid_bias);
             match ctx.below(10) {
-                0 | 1 => { let j = 1 + ctx.below(3); let f = if j >= 2 { *ctx.pick(&FRAGS) } else { "" }; op = format!("{op} @{j}{f}"); ctx.count("crash_in_op"); }
+                0 | 1 => { let j = 1 + ctx.below(if op.starts_with("dr") { 11 } else { 6 }); let f = if j == 2 || j == 7 { *ctx.pick(&FRAGS) } else { "" }; op = format!("{op} @{j}{f}"); ctx.count("crash_in_op"); }
                 2 => { h.push(op.clone()); op = "R".into(); ctx.count("restart"); }
                 3 => { h.push(op.clone()); op = format!("T {} {}", ctx.pick(&["r", "s"]), ctx.pick(&["e", "l", "p250", "p750"])); ctx.count("late_torn"); }
                 _ => {}
